@@ -596,6 +596,7 @@ func (in *Interp) sqlExec(db *sqlDB, st *sqlState, q *sqlParsed, goArgs []Value)
 	if db.crashAt >= 0 && db.stmts-1 == db.crashAt {
 		panic(targetPanic{v: Iface{t: types.Typ[types.String], v: concStr(in.tt, "verif: simulated process death")}})
 	}
+	in.crashTick()
 	if db.failAt >= 0 && db.stmts-1 == db.failAt {
 		return nil, fmt.Errorf("injected SQL failure at statement %d", db.failAt)
 	}
@@ -998,6 +999,7 @@ func init() {
 		if db.crashAt >= 0 && db.stmts-1 == db.crashAt {
 			panic(targetPanic{v: Iface{t: types.Typ[types.String], v: concStr(in.tt, "verif: simulated process death")}})
 		}
+		in.crashTick()
 		if db.failAt >= 0 && db.stmts-1 == db.failAt {
 			// a failed commit leaves the transaction rolled back
 			tx.done = true
@@ -1225,6 +1227,7 @@ func init() {
 		db := in.handle(args[0], "DB").(*sqlDB)
 		return in.tt.BV(64, uint64(db.openTx))
 	}
+	vIntrinsics["vTempFile2"] = func(in *Interp, fr *frame, args []Value) Value { return vIntrinsics["vTempFile"](in, fr, args) }
 	vIntrinsics["vTempFile"] = func(in *Interp, fr *frame, args []Value) Value {
 		n := 0
 		if in.path != nil {
@@ -1232,5 +1235,83 @@ func init() {
 			n = in.path.uuidCtr
 		}
 		return concStr(in.tt, fmt.Sprintf("/verif-tmp/db%d.sqlite", n))
+	}
+}
+
+// ---- crash model (C04) ---------------------------------------------------------
+//
+// vCrashRun(k, f) runs f; once f has called vCrashArm(), the process "dies"
+// immediately before the k-th SQL statement or Commit that follows (k < 0:
+// never). Everything not committed at that moment is lost; the durable state
+// of every database file stays available to a later sql.Open of the same
+// file name. Natively f runs in a child process that exits at that point.
+
+type crashDeath struct{}
+
+func (in *Interp) crashTick() {
+	p := in.path
+	if p == nil || !p.crashArmed {
+		return
+	}
+	if p.crashLeft == 0 {
+		p.crashArmed = false
+		panic(crashDeath{})
+	}
+	p.crashLeft--
+}
+
+func init() {
+	vIntrinsics["vCrashRun"] = func(in *Interp, fr *frame, args []Value) Value {
+		k := args[0].(*Term)
+		if k.op != OpConst {
+			in.unsupported("vCrashRun with symbolic crash point")
+		}
+		p := in.path
+		p.crashK = k.sval()
+		p.crashArmed = false
+		died := false
+		func() {
+			defer func() {
+				if r := recover(); r != nil {
+					if _, ok := r.(crashDeath); ok {
+						died = true
+						return
+					}
+					panic(r)
+				}
+			}()
+			in.callFunction(fr, args[1], nil)
+		}()
+		in.curFrame = fr
+		p.crashArmed = false
+		// open transactions of the dead process vanish
+		for _, db := range p.sqlFiles {
+			db.tx = nil
+			db.openTx = 0
+		}
+		return in.tt.Bool(died)
+	}
+	vIntrinsics["vCrashArm"] = func(in *Interp, fr *frame, args []Value) Value {
+		p := in.path
+		if p.crashK >= 0 {
+			p.crashArmed = true
+			p.crashLeft = p.crashK
+		}
+		return nil
+	}
+	vIntrinsics["vStash"] = func(in *Interp, fr *frame, args []Value) Value {
+		name, _ := args[0].(Str).conc()
+		if in.path.stash == nil {
+			in.path.stash = map[string]Value{}
+		}
+		in.path.stash[name] = args[1]
+		return nil
+	}
+	vIntrinsics["vUnstash"] = func(in *Interp, fr *frame, args []Value) Value {
+		name, _ := args[0].(Str).conc()
+		if v, ok := in.path.stash[name]; ok {
+			return v
+		}
+		return Slice{len: in.zero64, cap: in.zero64}
 	}
 }
